@@ -248,6 +248,22 @@ def judge(ctx, start, end, duration, hop, inc, ids=False):
             ctx.violate("ids_depend_only_on_parent_id_and_bounds", "ids_depend_only_on_parent_id_and_bounds", observed="copy of the clip gives other ids", spec=spec)
         if any(s.uuid == clip.uuid for s in segs) and len(segs) > 1:
             ctx.violate("ids_distinct", "ids_distinct", observed="segment reuses parent id", spec=spec)
+        # "a function of the parent identifier and the bounds": the same delivered window obtained through another
+        # duration / hop (here: the truncated last window re-obtained as a complete one) carries the same identifier
+        last = segs[-1]
+        if inc and _is_dyadic(start, end, duration, hop if hop is not None else duration) and last.end_time == end and last.end_time - last.start_time < duration and last.end_time > last.start_time:
+            d2 = last.end_time - last.start_time
+            h2 = last.start_time - start
+            try:
+                other = list(O.segment_clip(clip, d2, hop=(h2 if h2 > 0 else None), include_incomplete=False))
+            except Exception:
+                other = []
+            twin = [s for s in other if s.start_time == last.start_time and s.end_time == last.end_time]
+            if twin:
+                ctx.mon("id_same_bounds_other_route")
+                if twin[0].uuid != last.uuid:
+                    ctx.violate("ids_depend_only_on_parent_id_and_bounds", "ids_depend_only_on_parent_id_and_bounds:same_window_through_other_duration", observed=[str(last.uuid), str(twin[0].uuid)],
+                                expected="equal identifiers for equal parent and bounds", spec=dict(spec, other_route={"duration": d2, "hop": h2}))
 
 
 def _cls(L, D, H, inc):
